@@ -447,3 +447,7 @@ mod tests {
         assert_eq!(root, branch_abc_de_hash);
     }
 }
+
+#[cfg(kani)]
+#[path = "/verif/units/kani/core_update.rs"]
+mod verif_kani;
